@@ -220,6 +220,33 @@ func reachesOtherTests(e Edge, fn *ssa.Function) bool {
 }
 
 func c16MapEquality(c *Check, id string, eq *ssa.Function, f *types.Var, isA, isB func(ssa.Value) bool) {
+	// the standard library's maps.Equal(a.f, b.f) is exactly this comparison (same length, every key of one present in
+	// the other with an equal value): when its inequality answers false, nothing more is to be shown
+	for _, cl := range CallsIn(eq) {
+		cal := CalleeFn(cl.Common())
+		if cal == nil || cal.Pkg == nil || cal.Pkg.Pkg.Path() != "maps" || !strings.HasPrefix(cal.Name(), "Equal") || strings.HasPrefix(cal.Name(), "EqualFunc") || len(cl.Common().Args) != 2 {
+			continue
+		}
+		x, y := cl.Common().Args[0], cl.Common().Args[1]
+		if !((isA(x) && isB(y)) || (isB(x) && isA(y))) {
+			continue
+		}
+		used := false
+		for _, t := range Tests(eq) {
+			if t.Op == token.ILLEGAL && t.X == CallValue(cl) {
+				if ok, k := isFalseReturnOnly(ReachEdge(t.False, NewCut().AddEdges(t.True)), eq); ok && k > 0 {
+					used = true
+				}
+			}
+		}
+		for _, r := range Returns(eq) {
+			if AllOrigins(r.Results[0], func(v ssa.Value) bool { return v == CallValue(cl) }) {
+				used = true
+			}
+		}
+		c.Report(used, id, "MAP-EQ/maps.Equal", eq, cl.Pos(), "field "+f.Name(), "maps.Equal of the two "+f.Name()+" maps decides: unequal maps answer false")
+		return
+	}
 	// length comparison
 	nlen := 0
 	for _, t := range Tests(eq) {
@@ -432,6 +459,28 @@ func c16Copy(c *Check, id string) {
 		}
 	})
 	c.Report(!aliased, id, "COPY-FRESH", cp, cp.Pos(), "metadata", "Copy never assigns a metadata map to the copy (the source's map is not shared)")
+	// the standard library's maps.Copy(dst, src) writes every entry of src into dst: with dst the copy's own map and
+	// src the source's metadata that is the whole obligation
+	for _, cl := range CallsIn(cp) {
+		cal := CalleeFn(cl.Common())
+		if cal == nil || cal.Pkg == nil || cal.Pkg.Pkg.Path() != "maps" || !strings.HasPrefix(cal.Name(), "Copy") || len(cl.Common().Args) != 2 {
+			continue
+		}
+		dst, src := cl.Common().Args[0], cl.Common().Args[1]
+		okDst := false
+		if u, isU := firstOrigin(dst).(*ssa.UnOp); isU {
+			rf, base := FieldOf(u.X)
+			okDst = rf == metaF && base != nil && sameValue(base, CallValue(n))
+		}
+		okAll := okDst && fieldLoadFrom(metaF, recv)(src) && !InLoop(cl)
+		for _, r := range Returns(cp) {
+			if !Dominates(cp, cl, r) {
+				okAll = false
+			}
+		}
+		c.Report(okAll, id, "COPY-COVER/metadata", cp, cl.Pos(), "maps.Copy", "every metadata entry of the source is written, key and value, into the copy's own map")
+		return
+	}
 	// every ranged entry is set on the copy
 	var rg *ssa.Range
 	AllInstrs(cp, func(in ssa.Instruction) {
@@ -1054,6 +1103,46 @@ func c16Codecs(c *Check, id string) {
 		}
 	}
 	c.Floor(id, "CQRS marshalers", n, 3)
+	// a marshaler that hands its work to a sibling (the gogo marshaler's fallback to the std-proto one) configures the
+	// sibling like itself: every option both have (UUID generator, name generator) is copied, field by name — otherwise
+	// Marshal on the fallback path writes another name than Name() reports
+	nconv := 0
+	for _, fn := range c.P.SrcFuncs("components/cqrs") {
+		recv := fn.Signature.Recv()
+		if fn.Parent() != nil || recv == nil || fn.Signature.Params().Len() != 0 || fn.Signature.Results().Len() != 1 {
+			continue
+		}
+		from, to := NamedOf(recv.Type()), NamedOf(fn.Signature.Results().At(0).Type())
+		if from == nil || to == nil || from == to || !strings.HasSuffix(from.Obj().Name(), "Marshaler") || !strings.HasSuffix(to.Obj().Name(), "Marshaler") {
+			continue
+		}
+		fs, ok1 := from.Underlying().(*types.Struct)
+		ts, ok2 := to.Underlying().(*types.Struct)
+		if !ok1 || !ok2 {
+			continue
+		}
+		nconv++
+		for i := 0; i < ts.NumFields(); i++ {
+			tf := ts.Field(i)
+			var ff *types.Var
+			for j := 0; j < fs.NumFields(); j++ {
+				if fs.Field(j).Name() == tf.Name() && types.Identical(fs.Field(j).Type(), tf.Type()) {
+					ff = fs.Field(j)
+				}
+			}
+			if ff == nil {
+				continue
+			}
+			okCopy := false
+			for _, st := range FieldStoresByName(fn, tf.Name()) {
+				if g, _ := FieldOf(st.Addr); g == tf && AllOrigins(st.Val, func(o ssa.Value) bool { return LoadedField(o) == ff }) {
+					okCopy = true
+				}
+			}
+			c.Report(okCopy, id, "SIBLING-CODEC-SAME-OPTIONS", fn, fn.Pos(), from.Obj().Name()+"."+fn.Name()+": option "+tf.Name(), "the sibling marshaler gets this marshaler's "+tf.Name()+" (the two must generate the same names and UUIDs)")
+		}
+	}
+	c.Report(true, id, "SIBLING-CODECS-SCANNED", nil, token.NoPos, "package cqrs", fmt.Sprintf("%d marshaler-to-marshaler conversions examined", nconv))
 }
 
 func c16Reply(c *Check, id string) {
@@ -1091,6 +1180,30 @@ func c16Reply(c *Check, id string) {
 			okV := ok && CalleeName(call) == "(error).Error" && isHandleErr(call.Call.Value)
 			c.Report(okV && GuardedBy(mar, s, errSet), id, "REPLY-WRITE/error-text", mar, s.Pos(), "ErrorMetadataKey", "the handler error's text is written under ErrorMetadataKey on the error edge")
 		case hasKey:
+			// one write whose value was chosen before: a phi of two constants, the 'has error' one coming in on the error edge
+			if phi, isPhi := Arg(s, 1).(*ssa.Phi); isPhi && len(phi.Edges) == 2 && !GuardedBy(mar, s, errSet) && !GuardedBy(mar, s, errNil) {
+				on, off, okPhi := "", "", true
+				for i, e := range phi.Edges {
+					v, isC := ConstString(e)
+					pred := phi.Block().Preds[i]
+					term := pred.Instrs[len(pred.Instrs)-1]
+					viaErr := GuardedBy(mar, term, errSet) || edgeIs(pred, phi.Block(), errSet)
+					if !isC {
+						okPhi = false
+					} else if viaErr {
+						on = v
+					} else {
+						off = v
+					}
+				}
+				okPhi = okPhi && on != "" && off != "" && on != off
+				c.Report(okPhi, id, "REPLY-WRITE/flag-chosen", mar, s.Pos(), "HasErrorMetadataKey", "the flag value is chosen before the write: the 'has error' value on the handler-error edge, a different one otherwise")
+				if okPhi {
+					nW++
+					flagOn = on
+				}
+				continue
+			}
 			v, _ := ConstString(Arg(s, 1))
 			if GuardedBy(mar, s, errSet) && len(errSet) > 0 {
 				nW++
